@@ -9,7 +9,10 @@ Inductive case :=
 | CPair (a b : value)                       (* equality / order / hashes / lookup of a pair *)
 | CZ2F (z : Z)                              (* float(z): the bit pattern *)
 | CJava (s : list Z)                        (* hash("...") *)
-| CSort (rev : bool) (keys : list value).   (* sorted(range(n), key = keys[i], reverse = rev) *)
+| CSort (rev : bool) (keys : list value)    (* sorted(range(n), key = keys[i], reverse = rev) *)
+| CISort (rev : bool) (keys : list value).  (* the same for keys the caller knows to be pairwise comparable (long lists):
+                                               the stable sort `isort (key_leb rev)` alone, without sorted_model's
+                                               all-pairs comparability test (n^2 exact comparisons) *)
 
 Definition b2z (b : bool) : Z := if b then 1 else 0.
 Definition cmpz (c : option comparison) : Z :=
@@ -42,6 +45,7 @@ Definition run (tab : list (list Z * Z)) (c : case) : list Z :=
     | Some l => map idx_of l
     | None => [-1]
     end
+  | CISort rev keys => map idx_of (map fst (isort (key_leb rev) (number_from 0 keys)))
   end.
 
 Definition run_cases (tab : list (list Z * Z)) (cs : list case) : list (list Z) := map (run tab) cs.
